@@ -144,16 +144,16 @@ def gen_mps_qD(rng: Rng, qd, L, Dmax, style, q0=0, qtot=None):
     return qD, qtot
 
 
-def gen_mpo_qD(rng: Rng, qd, L, Dmax, shift=0, zero=False):
+def gen_mpo_qD(rng: Rng, qd, L, Dmax, shift=0, zero=False, q0=0):
     diffs = sorted(set(a - b for a in qd for b in qd) | {0})
-    qD = [[0]]
+    qD = [[q0]]
     for _ in range(1, L):
         D = rng.randrange(1, Dmax + 1)
         if zero:
             qD.append([0] * D)
         else:
-            qD.append([rng.pick(diffs) for _ in range(D)])
-    qD.append([shift])
+            qD.append([q0 + rng.pick(diffs) for _ in range(D)])
+    qD.append([q0 + shift])
     return qD
 
 
@@ -175,9 +175,9 @@ BODY = {
               from_vector=2, split_merge=3, orthonormalize=0.7, edit=0.7, deepcopy=0.3, ham=0.5),
     'C04': _w(new_mps=3, new_mpo=2, ham=1, herm_mpo=1, vdot=4, norm=2, op_avg=3, op_inner=3, op_density=2.5, env_blocks=5,
               orthonormalize=1.5, compress=1, add=1, apply=1, tdvp=0.5, dmrg=0.3, edit=0.7, matmul=0.4),
-    'C08': _w(tdvp=10, orthonormalize=0.8, deepcopy=0.5, norm=0.5, op_avg=0.7, new_mps=1, as_vector=0.3, vdot=0.3),
-    'C09': _w(tdvp=6, tdvp_reverse=4, new_mps=1.2, deepcopy=0.4, orthonormalize=0.5, op_avg=0.3),
-    'C10': _w(dmrg=10, orthonormalize=0.6, deepcopy=0.5, new_mps=1.2, op_avg=0.6, norm=0.3, tdvp=0.3),
+    'C08': _w(tdvp=10, orthonormalize=0.8, deepcopy=0.5, norm=0.5, op_avg=0.7, new_mps=1, as_vector=0.3, vdot=0.3, edit=1.2, compress=0.3),
+    'C09': _w(tdvp=6, tdvp_reverse=4, new_mps=1.2, deepcopy=0.4, orthonormalize=0.5, op_avg=0.3, edit=0.8),
+    'C10': _w(dmrg=10, orthonormalize=0.6, deepcopy=0.5, new_mps=1.2, op_avg=0.6, norm=0.3, tdvp=0.3, edit=1.0, compress=0.3),
     'C11': _w(new_mps=4, new_mpo=2, orthonormalize=9, edit=3, add=1.5, apply=1, tdvp=1.2, dmrg=0.8, compress=0.5,
               deepcopy=0.3, ham=0.4, herm_mpo=0.3),
     'C12': _w(new_mps=3.5, split_merge=7, compress=5, from_vector=2.5, add=2.5, sub=1, apply=1, tdvp=1.2, dmrg=0.8,
@@ -258,10 +258,17 @@ def gen_new_mps(rng: Rng, cfg, style=None, qtot=None):
     allzero = not any(qd)
     if style is None:
         if allzero:
-            style = rng.wpick([('zeroq', 6), ('random', 1), ('maxzero', 1.5)])
+            style = rng.wpick([('zeroq', 6), ('random', 1), ('maxzero', 1.5), ('ghz', 1.5)])
         else:
             style = rng.wpick([('valid', 6), ('full', 1.5), ('random', 1.5), ('disjoint', 0.5), ('leftfull', 0.3)])
     Dmax = cfg['Dmax']
+    if style == 'ghz':
+        d = cfg['d']
+        qD = [[0]] + [[0] * d for _ in range(L - 1)] + [[0]]
+        qt = 0
+        op = {'op': 'new_mps', 'qD': qD, 'style': 'ghz', 'fill': 'scalar', 'value': 1.0, 'sub': rng.sub(), 'entries': 'asis',
+              'weights': [[rng.pick([1.0, 1.0, 0.5, 0.5, 0.25, 2.0]) for _ in range(d)] for _ in range(max(L, 1))]}
+        return op
     if style == 'maxzero':
         d = cfg['d']
         qD = [[0] * min(d ** i, d ** (L - i), 16) for i in range(L + 1)]
@@ -405,9 +412,11 @@ def gen_op(rng: Rng, cfg, kind: str) -> dict:
         return gen_new_mps(rng, cfg)
     if kind == 'new_mpo':
         shift = 0 if rng.chance(0.7) else rng.pick(sorted(set(a - b for a in cfg['qd'] for b in cfg['qd'])))
-        return {'op': 'new_mpo', 'qD': gen_mpo_qD(rng, cfg['qd'], L, min(cfg['Dmax'], 4), shift=shift), 'sub': s(),
+        q0 = 0 if (rng.chance(0.7) or not any(cfg['qd'])) else rng.pick([1, -1, 2, -3])
+        return {'op': 'new_mpo', 'qD': gen_mpo_qD(rng, cfg['qd'], L, min(cfg['Dmax'], 4), shift=shift, q0=q0), 'sub': s(),
                 'fill': rng.wpick([('rng', 8), ('env', 1), ('scalar', 1)]), 'value': rng.pick([1.0, 1, 0.5, 2]),
-                'entries': rng.wpick([('complex', 6), ('real', 2), ('int', 1)])}
+                'entries': rng.wpick([('complex', 6), ('real', 2), ('int', 1)]),
+                'magnitude': rng.wpick([('normal', 8), ('unbalanced', 1), ('tiny', 1), ('huge', 0.5)])}
     if kind == 'identity':
         return {'op': 'identity', 'scale': rng.pick([1, 1.0, 0.5, -2.0, [0.0, 1.0], 3]), 'dtype': rng.pick(['complex', 'float', 'complex'])}
     if kind == 'ham':
@@ -425,12 +434,14 @@ def gen_op(rng: Rng, cfg, kind: str) -> dict:
     if kind == 'compress':
         tol = rng.pick(DYADIC_TOLS)
         return {'op': 'compress', 'sel': s(), 'tol': tol, 'tolscale': rng.random(), 'mode': rng.pick(['left', 'right']),
-                'exact_tie': rng.chance(0.25)}
+                'exact_tie': rng.chance(0.2), 'between': rng.chance(0.3)}
     if kind == 'zero_qnumbers':
         return {'op': 'zero_qnumbers', 'sel': s(), 'kind': rng.pick(['mps', 'mpo'])}
     if kind == 'edit':
         return {'op': 'edit', 'sel': s(), 'kind': rng.wpick([('mps', 3), ('mpo', 1)]), 'site': s(),
-                'what': rng.pick(['scale', 'clamp', 'bonddiag', 'real', 'int', 'zero_site', 'dupbond', 'product', 'ghz', 'staircase']),
+                'what': rng.pick(['scale', 'scale_inplace', 'clamp', 'bonddiag', 'real', 'int', 'zero_site', 'dupbond', 'product', 'ghz', 'staircase',
+                                  'staircase', 'unbalance', 'tiny', 'local_op_inplace']),
+                'step': rng.pick([1, 1, 4, 8, 10]),
                 'sub': s(), 'factor': rng.pick([2.0, -1.0, 0.5, 1e-3, 1e3, [0.0, 1.0], 0.25])}
     if kind in ('add', 'sub'):
         return {'op': kind, 'a': s(), 'b': s(), 'kind': rng.wpick([('mps', 3), ('mpo', 2)])}
@@ -440,7 +451,8 @@ def gen_op(rng: Rng, cfg, kind: str) -> dict:
         return {'op': 'apply', 'a': s(), 'b': s()}
     if kind == 'split_merge':
         return {'op': 'split_merge', 'sel': s(), 'site': s(), 'distr': rng.pick(['left', 'right', 'sqrt']),
-                'tol': rng.pick(DYADIC_TOLS) if rng.chance(0.5) else 0.0, 'exact_tie': rng.chance(0.3)}
+                'tol': rng.pick(DYADIC_TOLS) if rng.chance(0.5) else 0.0, 'exact_tie': rng.chance(0.3), 'between': rng.chance(0.3),
+                'tolscale': rng.random()}
     if kind == 'tdvp':
         return {'op': 'tdvp', 'H': s(), 'psi': s(), 'sites': rng.pick([1, 1, 2]), 'dt': _dt(rng, profile, cfg.get('complete')),
                 'n': rng.pick([1, 1, 2, 3]), 'numiter': rng.pick(NUMITERS_TDVP) if profile != 'C09' else rng.pick([12, 16, 25, 40]),
